@@ -9,7 +9,12 @@ import (
 	"sort"
 
 	"github.com/andydunstall/yamux"
+	"github.com/gin-gonic/gin"
 )
+
+func (s *Server) VRoutes() []gin.RouteInfo {
+	return s.httpServer.Handler.(*gin.Engine).Routes()
+}
 
 // VBalancer is a copy of one endpoint's round-robin state.
 type VBalancer struct {
